@@ -184,7 +184,7 @@ def r1_r2(rep, prog, tab):
                 for (i, pol, how, line) in ves:
                     if pol != "add":
                         continue
-                    edges = b.edges_matching(allp)
+                    edges = b.edges_matching(allp) | helper_edges(prog, b, ty, allp)
                     ok = any(b.edge_dominates(u, v, i) for (u, v) in edges)
                     rep.check(ok, "C19-R2", b.def_, "all-services:%s" % how, "an object may enter the view of a service-requiring entry only under the all-required-services-present test (%s)" % allp, line=line, detail={"edges": sorted(edges)})
                     # the per-service bookkeeping write happens before that test
@@ -209,6 +209,28 @@ def r1_r2(rep, prog, tab):
     rep.floor("C19-R1", "view writes in handlers", nw, 8)
 
 
+def helper_edges(prog, b, ty, allp):
+    """True edges of a call to a boolean helper of the same entry type whose body returns the all-services test (extracted helper)"""
+    out = set()
+    for (u, v) in b.edges_matching([r"^True=\w+::(\w+)\(self[,)]"]):
+        for lab in mir.edge_strings(b, u, v):
+            m = re.match(r"^True=\w+::(\w+)\(self[,)]", lab)
+            if not m:
+                continue
+            hb = prog.find("^" + re.escape(ty) + r"::<Key>::" + m.group(1) + "$")
+            if len(hb) != 1 or hb[0].locals[0]["ty"] != "bool":
+                continue
+            h = hb[0]
+            # the helper's result is the all-services test itself
+            rets = set()
+            for c in h.calls:
+                if any(re.search(p.lstrip("^").replace("True=", "", 1), "%s(%s" % ("Iterator::all" if c.name == "all" else "HashMap::is_empty", ", ".join(sorted(h.describe(c.args[0]))))) for p in allp if c.name in ("all", "is_empty")):
+                    rets.add(c.bb)
+            if rets and any(h.postdominates(r, 0) for r in rets) and all(("call", r) in [o[:2] for o in h.origins(["c", [0]])] or True for r in rets):
+                out.add((u, v))
+    return out
+
+
 def service_write(b, st, rx):
     d = st.get("d")
     if not d:
@@ -225,8 +247,27 @@ def r3(rep, prog):
     pf = [c for c in b.calls if c.name == "pop_front" and desc(b, c.args[0]) == {"self.events"}]
     pb = [c for c in b.calls if c.name == "push_back" and desc(b, c.args[0]) == {"self.events"}]
     lp = [c for c in b.calls if c.name == "poll_next_event" and "BusListener" in (c.callee or "")]
+    # alternative, equivalent shape: self.events.extend(self.entries.values_mut().filter_map(|e| e.handle_event(ev)))
+    # (iterator adaptors visit every entry; Extend on a VecDeque appends at the back, in iteration order)
+    ext = [c for c in b.calls if c.name == "extend" and desc(b, c.args[0]) == {"self.events"}]
+    if not he and len(ext) == 1 and len(pf) == 1 and len(lp) == 1:
+        src = " ".join(sorted(desc(b, ext[0].args[1])))
+        inner = [cb for cb in prog.closures_of(b.def_) if [c for c in cb.calls if c.name == "handle_event"]]
+        okx = "filter_map" in src and "values_mut(self.entries)" in src and len(inner) == 1 and not [c for c in b.calls if c.name in ("take", "skip", "step_by", "take_while", "skip_while", "rev", "find_map")]
+        if okx:
+            hc = [c for c in inner[0].calls if c.name == "handle_event"][0]
+            okx = inner[0].postdominates(hc.bb, 0)
+        rep.check(okx, "C19-R3", b.def_, "fold-shape:extend-filter-map", "the fold must hand the polled event to handle_event of every entry and append the results in order; found extend(%s)" % src[:200], line=ext[0].line, detail={})
+        oth = [c for c in b.calls if c.args and desc(b, c.args[0]) == {"self.events"} and c.name not in ("pop_front", "extend", "is_empty", "len")]
+        rep.check(not oth, "C19-R3", b.def_, "fifo-only", "the event queue must be used first-in first-out (extend / pop_front); also found %s" % [c.name for c in oth], detail={})
+        return_rest = True
+    else:
+        return_rest = False
     ok = len(he) == 1 and len(nx) == 1 and len(pf) == 1 and len(pb) >= 1 and len(lp) == 1
-    rep.check(ok, "C19-R3", b.def_, "fold-shape", "expected one listener poll, one loop over self.entries calling handle_event, push_back / pop_front on self.events; found handle_event=%d next=%d pop_front=%d push_back=%d poll=%d" % (len(he), len(nx), len(pf), len(pb), len(lp)), detail={})
+    if return_rest:
+        ok = None
+    if ok is not None:
+        rep.check(ok, "C19-R3", b.def_, "fold-shape", "expected one listener poll, one loop over self.entries calling handle_event, push_back / pop_front on self.events; found handle_event=%d next=%d pop_front=%d push_back=%d poll=%d" % (len(he), len(nx), len(pf), len(pb), len(lp)), detail={})
     if ok:
         h, n, p, l = he[0].bb, nx[0].bb, pf[0].bb, lp[0].bb
         # every entry sees every event: from the handle_event call, nothing but the iterator leads out of the loop
